@@ -16,9 +16,12 @@ Two parts.
     normalize('max') / normalize('sum') / unnormalize() / first reads of
     profile, profile_error, data_profile on the real object: in every state
     profile and profile_error equal raw / (product of the normalisations) and
-    whenever the object is un-normalised ALL arrays equal those of a fresh
-    object (normalize followed by unnormalize restores every array whenever
-    each array was first read).
+    whenever the object is un-normalised ALL arrays (profile, profile_error,
+    data_profile, area, radius) equal those of a fresh object (normalize
+    followed by unnormalize restores every array whenever each array was first
+    read).  Roots: class x error map x units x sign structure of the image
+    (positive / all negative / max > 0 but sum < 0 / all zero / NaN bin), so
+    that the normalisation constants take both signs, zero, and skip NaNs.
 """
 import itertools
 import math
@@ -38,11 +41,19 @@ RULE = ('(C) full product: image {non-negative, signed, constant, ring} x centre
         'mask {none, wedge, non-finite pixels} x error {none, map} x method {exact, center, subpixel 5, subpixel 2} '
         'x class {CurveOfGrowth, RadialProfile} (+ units on the exact method); a case is non-trivial when the '
         'largest circle is cut by the image edge or by masked pixels, or the radii are not uniform. '
-        '(A) BFS over histories of normalize(max|sum)/unnormalize/first reads from 5 roots; a history is non-trivial '
-        'when it contains a normalize; states are digests of the complete instance __dict__.')
+        '(A) BFS over histories of normalize(max|sum)/unnormalize/first reads from the full product of roots class '
+        '{RadialProfile, CurveOfGrowth} x error map {yes, no} x units {no, yes} x image {positive (max>0, sum>0), '
+        'all-negative (max<0, sum<0), positive core on a negative pedestal (max>0, sum<0), all-zero (cannot be '
+        'normalised: no-op), positive with a fully masked annulus (NaN bin)} = 40 roots; in every state profile, '
+        'profile_error, (data_profile when un-normalised), area and radius are compared with the fresh object '
+        'scaled by the product of the (signed) normalisation constants; a history is non-trivial when it contains a '
+        'normalize (and the root can be normalised); states are digests of the complete instance __dict__.')
 ASSUMPTIONS = ['numpy, scipy PchipInterpolator are trusted; photutils.geometry kernels are NOT used by the reference',
                'exact-method weights of photutils are accurate to 1e-8 per pixel (C01 decides that)',
-               'a state of a profile object is its __dict__; equal digests have equal futures']
+               'a state of a profile object is its __dict__; equal digests have equal futures',
+               'while a profile is normalised by a NEGATIVE constant the sign of profile_error is not specified by the '
+               'property: only its magnitude is compared in normalised states; after unnormalize every array must '
+               'equal the fresh one, sign included']
 
 EPS = np.finfo(float).eps
 SHAPE = (21, 23)
@@ -325,13 +336,22 @@ def check_ee(acc, case, obj, prof, radii):
 
 
 # ---------------------------------------------------------------------------- (A) histories
-ROOTS = {
-    'rp_err': {'cls': 'rp', 'error': True, 'unit': False},
-    'rp_noerr': {'cls': 'rp', 'error': False, 'unit': False},
-    'rp_unit': {'cls': 'rp', 'error': True, 'unit': True},
-    'cog_err': {'cls': 'cog', 'error': True, 'unit': False},
-    'cog_noerr_unit': {'cls': 'cog', 'error': False, 'unit': True},
-}
+# roots = full product class x error map x units x sign structure of the image (= sign of the normalisation constants):
+#   pos       positive source + positive noise                      max > 0, sum > 0
+#   neg       the same minus 9: every pixel negative                max < 0, sum < 0
+#   pedestal  the same minus 5: positive core on a negative level   max > 0, sum < 0
+#   zero      all-zero image: max == sum == 0, documented "cannot be normalized" (normalize is a no-op)
+#   nanbin    pos with every pixel of the annulus 2 <= r <= 3.5 masked: that RadialProfile bin has no area -> NaN
+#             entry in profile / profile_error (max and sum are documented to ignore it)
+H_IMAGES = {'pos': 0.0, 'neg': -9.0, 'pedestal': -5.0, 'zero': None, 'nanbin': 0.0}
+H_SIGNS = {'pos': (1, 1), 'neg': (-1, -1), 'pedestal': (1, -1), 'zero': (0, 0), 'nanbin': (1, 1)}
+ROOTS = {}
+for _img in H_IMAGES:
+    for _cls in ('rp', 'cog'):
+        for _err in (True, False):
+            for _unit in (False, True):
+                ROOTS[f'{_cls}_{"err" if _err else "noerr"}{"_unit" if _unit else ""}_{_img}'] = {
+                    'cls': _cls, 'error': _err, 'unit': _unit, 'image': _img}
 H_SHAPE = (11, 13)
 H_RADII = [0.0, 1.0, 2.0, 3.5, 5.0]
 
@@ -342,20 +362,27 @@ def _h_inputs(root, seed):
     rng = rng_for(seed, 7)
     yy, xx = np.mgrid[0:H_SHAPE[0], 0:H_SHAPE[1]]
     data = 6.0 * np.exp(-((xx - 6.2) ** 2 + (yy - 5.1) ** 2) / 7.0) + rng.random(H_SHAPE)
-    err = (1.0 + rng.random(H_SHAPE)) if spec['error'] else None
+    noise = rng.random(H_SHAPE)      # drawn for every root so that all roots share the same numbers
+    err = (1.0 + noise) if spec['error'] else None
+    off = H_IMAGES[spec['image']]
+    data = np.zeros(H_SHAPE) if off is None else data + off
+    mask = None
+    if spec['image'] == 'nanbin':
+        r = np.hypot(xx - 6.2, yy - 5.1)
+        mask = (r >= 2.0 - 0.75) & (r <= 3.5 + 0.75)      # every pixel that touches the annulus (half diagonal 0.71)
     if spec['unit']:
         data = data * u.Jy
         err = None if err is None else err * u.Jy
-    return data, err
+    return data, err, mask
 
 
 def _h_new(root, seed):
     from photutils.profiles import CurveOfGrowth, RadialProfile
     spec = ROOTS[root]
-    data, err = _h_inputs(root, seed)
+    data, err, mask = _h_inputs(root, seed)
     cls = RadialProfile if spec['cls'] == 'rp' else CurveOfGrowth
     radii = np.array(H_RADII if spec['cls'] == 'rp' else H_RADII[1:])
-    return cls(data, (6.2, 5.1), radii, error=err)
+    return cls(data, (6.2, 5.1), radii, error=err, mask=mask)
 
 
 class HState:
@@ -369,6 +396,12 @@ class HSystem:
         fresh = _h_new(root, seed)
         self.raw = {n: getattr(fresh, n) for n in self.names + ['area', 'radius']}
         self.unit = getattr(self.raw['profile'], 'unit', None)
+        p = _val(self.raw['profile'])
+        signs = (int(np.sign(np.nanmax(p))), int(np.sign(np.nansum(p))))
+        if signs != H_SIGNS[ROOTS[root]['image']]:
+            raise RuntimeError(f'root {root}: (sign of max, sign of sum) of the profile is {signs}, not as designed')
+        if ROOTS[root]['image'] == 'nanbin' and ROOTS[root]['cls'] == 'rp' and not np.isnan(p).any():
+            raise RuntimeError(f'root {root}: the masked annulus was expected to give a NaN bin')
 
     def initial(self):
         st = HState()
@@ -387,7 +420,7 @@ class HSystem:
         return ops
 
     def nontrivial(self, hist):
-        return any(op[0] == 'normalize' for op in hist)
+        return ROOTS[self.root]['image'] != 'zero' and any(op[0] == 'normalize' for op in hist)
 
     def outcome(self, st):
         return (len(st.norm), tuple(sorted(k for k in st.obj.__dict__ if k in ('profile', 'profile_error', 'data_profile'))))
@@ -407,6 +440,10 @@ class HSystem:
     def _cmp(self, st, name, val, report, site):
         want = self._expect(st, name)
         got = _val(val)
+        if name == 'profile_error' and st.norm and self._factor(st) < 0:
+            # the property does not say which sign an uncertainty has WHILE normalised by a negative constant:
+            # only the magnitude is judged there (the restored, un-normalised array is compared exactly)
+            want, got = np.abs(want), np.abs(got)
         # every normalize / unnormalize multiplies or divides once: <= 1 ulp each; allow 4 ulp per operation
         rtol = 4 * EPS * (st.nops + 2)
         if got.shape != want.shape or not np.allclose(got, want, rtol=rtol, atol=0, equal_nan=True):
@@ -434,6 +471,12 @@ class HSystem:
                     cur = self._expect(st, 'profile')
                     f = float(np.nanmax(cur) if op[1] == 'max' else np.nansum(cur))
                     obj.normalize(method=op[1])
+                    if f == 0:
+                        # documented: a profile whose max / sum is zero cannot be normalised (warning, no change)
+                        nv = float(_val(obj.normalization_value))
+                        if nv != (self._factor(st) if st.norm else 1.0):
+                            report('normalization-value', f'normalize:{op[1]}:zero', nv, self._factor(st))
+                        return True
                     st.norm.append(f)
                     st.nops += 1
                     nv = float(_val(obj.normalization_value))
@@ -454,7 +497,7 @@ class HSystem:
     def invariant(self, st, report):
         with warnings.catch_warnings():
             warnings.simplefilter('ignore')
-            for name in self.names + ['area']:
+            for name in self.names + ['area', 'radius']:
                 if name == 'data_profile' and st.norm:
                     continue
                 try:
@@ -537,5 +580,9 @@ def describe(tier, seed):
                          'radii': RADII_THOROUGH if tier == 'thorough' else RADII, 'mask': list(MASKS), 'error': list(ERRORS), 'methods': list(METHODS),
                          'classes': ['CurveOfGrowth', 'RadialProfile'], 'units': 'on/off for method exact x image nonneg'},
             'bound': {'history depth': h_depth(tier), 'roots': list(ROOTS),
+                      'root axes': {'class': ['rp', 'cog'], 'error map': [True, False], 'units': [False, True],
+                                    'image (sign of profile max, sign of profile sum)': {k: list(v) for k, v in H_SIGNS.items()}},
+                      'compared in every state': ['profile', 'profile_error', 'data_profile (un-normalised states)',
+                                                  'area', 'radius', 'normalization_value'],
                       'ops': ['normalize(max)', 'normalize(sum)', 'unnormalize()', 'read profile', 'read profile_error',
                               'read data_profile (RadialProfile)'] + (['read area'] if tier == 'thorough' else [])}}
